@@ -2,7 +2,9 @@ package main
 
 import (
 	"fmt"
+	"go/token"
 	"regexp/syntax"
+	"sort"
 	"strings"
 
 	"golang.org/x/tools/go/ssa"
@@ -145,76 +147,119 @@ func ruleQuotedPattern(c *Ctx) {
 	c.count("glob-compile-sites", n)
 	c.floor("glob-compile-sites", 2)
 	// R17.c: constants in the translator
+	// the translator: the function whose result is handed to the regular-expression compiler
+	// (or the compiling function itself when the expression is built in place)
 	var tr *ssa.Function
 	for _, fn := range c.P.RepoFuncs(pkgGlob) {
-		hasQuote := false
 		allInstrs(fn, func(ins ssa.Instruction) {
-			if _, ok := isCall(ins, "regexp.QuoteMeta"); ok {
-				hasQuote = true
+			call, ok := ins.(*ssa.Call)
+			if !ok || tr != nil {
+				return
 			}
-		})
-		if hasQuote {
+			nme := calleeName(call.Common())
+			if !(strings.HasPrefix(nme, "regexp.Compile") || nme == "regexp.MustCompile") {
+				return
+			}
+			if _, isC := constString(call.Common().Args[0]); isC {
+				return
+			}
+			if ac, ok := strip(call.Common().Args[0]).(*ssa.Call); ok {
+				if h := staticCallee(ac.Common()); h != nil && inRepo(h) && h.Blocks != nil {
+					tr = h
+					return
+				}
+			}
 			tr = fn
-		}
+		})
+	}
+	if tr != nil && !c.P.reachesCallNamed(tr, "regexp.QuoteMeta") {
+		tr = nil
 	}
 	if tr == nil {
 		c.bad("R17.c", "translator", "", "no function of redis/glob calls regexp.QuoteMeta")
 		return
 	}
 	c.analysed(tr)
-	var consts []struct {
+	// the fragments written into the pattern builder: constants (with the rune test guarding
+	// them and whether they come before, inside or after the per-rune loop), directly or as the
+	// constant results of a per-rune helper
+	type frag struct {
 		s     string
-		ins   ssa.Instruction
-		facts []Atom
+		guard int64
+		where int // 0 before the loop, 1 inside, 2 after
+		order token.Pos
+	}
+	var frags []frag
+	loops := naturalLoops(tr)
+	whereOf := func(b *ssa.BasicBlock) int {
+		for _, l := range loops {
+			if l.Blocks[b] {
+				return 1
+			}
+		}
+		for _, l := range loops {
+			if b.Dominates(l.Header) {
+				return 0
+			}
+		}
+		if len(loops) == 0 {
+			// no loop: before = entry block, after = a block that returns
+			for _, i2 := range b.Instrs {
+				if _, ok := i2.(*ssa.Return); ok {
+					return 2
+				}
+			}
+			return 0
+		}
+		return 2
+	}
+	guardOf := func(facts []Atom, subject ssa.Value) int64 {
+		g := int64(-1)
+		for _, at := range facts {
+			if at.Kind == "eq" && at.Pos {
+				if cv, ok := constInt(at.Y); ok && (subject == nil || strip(at.X) == subject) {
+					g = cv
+				}
+			}
+		}
+		return g
 	}
 	allInstrs(tr, func(ins ssa.Instruction) {
 		call, ok := ins.(*ssa.Call)
 		if !ok || !strings.Contains(calleeName(call.Common()), ").Write") || len(call.Common().Args) < 2 {
 			return
 		}
-		if s, ok := constString(call.Common().Args[1]); ok {
-			consts = append(consts, struct {
-				s     string
-				ins   ssa.Instruction
-				facts []Atom
-			}{s, ins, factsAt(ins.Block())})
-		} else if cv, ok := constInt(call.Common().Args[1]); ok {
-			consts = append(consts, struct {
-				s     string
-				ins   ssa.Instruction
-				facts []Atom
-			}{string(rune(cv)), ins, factsAt(ins.Block())})
+		arg := call.Common().Args[1]
+		w := whereOf(ins.Block())
+		if s, ok := constString(arg); ok {
+			frags = append(frags, frag{s, guardOf(factsAt(ins.Block()), nil), w, ins.Pos()})
+		} else if cv, ok := constInt(arg); ok {
+			frags = append(frags, frag{string(rune(cv)), guardOf(factsAt(ins.Block()), nil), w, ins.Pos()})
+		} else if hc, ok := strip(arg).(*ssa.Call); ok {
+			if h := staticCallee(hc.Common()); h != nil && inRepo(h) && h.Blocks != nil && len(h.Params) >= 1 {
+				for _, r := range returnsOf(h) {
+					if len(r.Results) != 1 {
+						continue
+					}
+					if s, ok := constString(retOperand(r, 0)); ok {
+						frags = append(frags, frag{s, guardOf(factsAt(r.Block()), ssa.Value(h.Params[len(h.Params)-1])), w, ins.Pos()})
+					}
+				}
+			}
 		}
 	})
+	sort.SliceStable(frags, func(i, j int) bool { return frags[i].order < frags[j].order })
 	star, quest, first, last := "", "", "", ""
-	entry := tr.Blocks[0]
-	for _, k := range consts {
-		guard := int64(-1)
-		for _, at := range k.facts {
-			if at.Kind == "eq" && at.Pos {
-				if cv, ok := constInt(at.Y); ok {
-					guard = cv
-				}
-			}
-		}
+	for _, k := range frags {
 		switch {
-		case guard == '*':
+		case k.guard == '*':
 			star = k.s
-		case guard == '?':
+		case k.guard == '?':
 			quest = k.s
-		case k.ins.Block() == entry && first == "":
-			first = k.s
-		default:
-			// a write in a block that leads straight to the return
-			isLast := false
-			for _, i2 := range k.ins.Block().Instrs {
-				if _, ok := i2.(*ssa.Return); ok {
-					isLast = true
-				}
-			}
-			if isLast {
-				last = k.s
-			}
+		case k.where == 0:
+			first += k.s
+		case k.where == 2:
+			last += k.s
 		}
 	}
 	// concatenation idiom: "(?s)^" + ReplaceAll(ReplaceAll(QuoteMeta(p), `\*`, ".*"), `\?`, ".") + "$"
